@@ -239,6 +239,401 @@ def run_tetris(ctx, R, C):
 
 
 # ======================================================================================================================
+# 2. entities start on distinct free cells
+# ======================================================================================================================
+def run_connector_uniform(ctx, G, A):
+    from jumanji.environments.routing.connector.generator import UniformRandomGenerator
+    from jumanji.environments.routing.connector.utils import get_position, get_target
+    gen = UniformRandomGenerator(G, A)
+    name = f"Connector.UniformRandomGenerator[{G}x{G}a{A}]"
+
+    def ens(key):
+        s = gen(key)
+        st, tg = s.agents.start, s.agents.target
+        flat = jnp.concatenate([st[:, 0] * G + st[:, 1], tg[:, 0] * G + tg[:, 1]])
+        rows, cols = jnp.arange(G)[:, None], jnp.arange(G)[None, :]
+        want = jnp.zeros((G, G), jnp.int32)
+        for a in range(A):
+            want = jnp.where((rows == st[a, 0]) & (cols == st[a, 1]), get_position(a), want)
+            want = jnp.where((rows == tg[a, 0]) & (cols == tg[a, 1]), get_target(a), want)
+        return {"C10.heads_inside_grid": (st >= 0) & (st < G), "C10.targets_inside_grid": (tg >= 0) & (tg < G),
+                "C10.heads_and_targets_pairwise_distinct": _pairwise_distinct(flat),
+                "C10.grid_shows_exactly_one_head_and_one_target_per_agent": s.grid == want,
+                "C10.agents_start_at_their_heads": s.agents.position == st,
+                "C10.agent_ids_and_step_count": (s.agents.id == jnp.arange(A)) & (s.step_count == 0),
+                "canary.first_head_in_first_row": st[0, 0] == 0}
+
+    ctx.prove(name, (KEY0,), ens, targets=[UniformRandomGenerator.__call__])
+    _not_constant(ctx, name, gen, lambda s: s.grid, [UniformRandomGenerator.__call__], keys=16)
+
+
+def run_lbf(ctx, G, A, F, L=2, coop=False):
+    from jumanji.environments.routing.lbf.generator import RandomGenerator
+    gen = RandomGenerator(G, A, F, G, max_agent_level=L, force_coop=coop)
+    name = f"LBF.RandomGenerator[g{G}a{A}f{F}l{L}{'coop' if coop else ''}]"
+
+    def ens(key):
+        s = gen(key)
+        ap, fp = s.agents.position, s.food_items.position
+        aflat = ap[:, 0] * G + ap[:, 1]
+        fflat = fp[:, 0] * G + fp[:, 1]
+        out = {"C10.agents_inside_grid": (ap >= 0) & (ap < G),
+               "C10.agents_pairwise_distinct": _pairwise_distinct(aflat),
+               "C10.food_not_on_the_edge": (fp >= 1) & (fp <= G - 2),
+               "C10.no_agent_on_a_food_cell": jnp.stack([aflat[i] != fflat[j] for i in range(A) for j in range(F)]),
+               "C10.agent_levels_in_range": (s.agents.level >= 1) & (s.agents.level <= L),
+               "C10.food_levels_at_least_one": s.food_items.level >= 1,
+               "C10.every_food_can_be_loaded_by_all_agents_together": s.food_items.level <= jnp.sum(s.agents.level),
+               "C10.nothing_eaten_nobody_loading": jnp.all(~s.food_items.eaten) & jnp.all(~s.agents.loading) & (s.step_count == 0),
+               "canary.first_agent_in_first_row": ap[0, 0] == 0}
+        if F > 1:
+            out["C10.food_pairwise_distinct_and_not_adjacent"] = jnp.stack(
+                [jnp.abs(fp[i, 0] - fp[j, 0]) + jnp.abs(fp[i, 1] - fp[j, 1]) > 1 for i in range(F) for j in range(i + 1, F)])
+        return out
+
+    ctx.prove(name, (KEY0,), ens, targets=[RandomGenerator.__call__, RandomGenerator.sample_food, RandomGenerator.sample_agents, RandomGenerator.sample_levels])
+    _not_constant(ctx, name, gen, lambda s: s.agents.position, [RandomGenerator.__call__], keys=16)
+
+
+def run_rware(ctx, cfg):
+    from jumanji.environments.routing.robot_warehouse.generator import RandomGenerator
+    from jumanji.environments.routing.robot_warehouse import utils_spawn as US
+    gen = RandomGenerator(*cfg)
+    name = "RobotWarehouse.RandomGenerator[%d,%d,%d,a%d,s%d,q%d]" % cfg
+    H, W = (int(x) for x in gen._grid_size)
+    A, Q = cfg[3], cfg[5]
+    nS = int(gen._shelf_ids.shape[0])
+    spos = np.asarray(gen._shelf_positions)
+
+    def ens(key):
+        s = gen(key)
+        x, y = s.agents.position.x, s.agents.position.y
+        rows, cols = jnp.arange(H)[:, None], jnp.arange(W)[None, :]
+        want = jnp.zeros((H, W), jnp.int32)
+        for a in range(A):
+            want = jnp.where((rows == x[a]) & (cols == y[a]), a + 1, want)
+        q = s.request_queue
+        requested = jnp.stack([jnp.any(q == i) for i in range(nS)])
+        out = {"C10.agents_inside_grid": (x >= 0) & (x < H) & (y >= 0) & (y < W),
+               "C10.agent_channel_shows_each_agent_on_its_cell": s.grid[1] == want,
+               "C10.agent_direction_valid": (s.agents.direction >= 0) & (s.agents.direction < 4),
+               "C10.nobody_carrying": s.agents.is_carrying == 0,
+               "C10.request_queue_ids_valid": (q >= 0) & (q < nS),
+               "C10.requested_shelves_are_exactly_the_queue": (s.shelves.is_requested == 1) == requested,
+               "C10.shelves_on_their_rack_cells": (s.shelves.position.x == spos[:, 0]) & (s.shelves.position.y == spos[:, 1]),
+               "canary.first_agent_in_first_row": x[0] == 0}
+        if A > 1:
+            out["C10.agents_pairwise_distinct"] = _pairwise_distinct(x * W + y)
+        if Q > 1:
+            out["C10.request_queue_pairwise_distinct"] = _pairwise_distinct(q)
+        return out
+
+    ctx.prove(name, (KEY0,), ens, targets=[RandomGenerator.__call__, US.spawn_random_entities, US.place_entities_on_grid], merge_over=64)
+    shelf_grid = np.zeros((H, W), np.int64)
+    for i, (a, b) in enumerate(spos):
+        shelf_grid[a, b] = i + 1
+    st = gen(KEY0)
+    ok = np.array_equal(np.asarray(st.grid[0]), shelf_grid) and not np.any(np.asarray(gen.highways)[spos[:, 0], spos[:, 1]]) and len({tuple(p) for p in spos}) == nS
+    ctx.structural(f"{name}/C10.shelves_on_distinct_non_highway_cells", bool(ok), "native evaluation (the shelf layout is a constant of the configuration)",
+                   targets=[type(gen).__mro__[1]._make_warehouse])
+    _not_constant(ctx, name, gen, lambda s: jnp.concatenate([s.agents.position.x, s.agents.position.y, s.request_queue]), [US.spawn_random_entities], keys=16)
+
+
+def run_maze_gen(ctx, R, C):
+    from jumanji.environments.routing.maze import generator as MG
+    gen = MG.RandomGenerator(R, C)
+    name = f"Maze.RandomGenerator[{R}x{C}]"
+    walls0 = jnp.zeros((R, C), jnp.int8)
+
+    def req(key, maze):
+        return {"generate_maze.values_are_EMPTY_or_WALL": (maze == 0) | (maze == 1),
+                "generate_maze.at_least_two_free_cells": jnp.sum(maze == 0) >= 2}
+
+    def ens(key, maze):
+        with K.with_attr(MG.maze_generation, "generate_maze", lambda w, h, k: maze):
+            s = gen(key)
+        ar, ac, tr, tc = s.agent_position.row, s.agent_position.col, s.target_position.row, s.target_position.col
+        inside = lambda r, c: (r >= 0) & (r < R) & (c >= 0) & (c < C)
+        free = lambda r, c: maze[jnp.clip(r, 0, R - 1), jnp.clip(c, 0, C - 1)] == 0
+        return {"C10.start_inside_grid": inside(ar, ac), "C10.target_inside_grid": inside(tr, tc),
+                "C10.start_cell_free": inside(ar, ac) & free(ar, ac), "C10.target_cell_free": inside(tr, tc) & free(tr, tc),
+                "C10.start_differs_from_target": (ar != tr) | (ac != tc),
+                "C10.walls_are_the_generated_maze": s.walls == (maze == 1),
+                "C10.step_count_zero": s.step_count == 0,
+                "canary.start_at_origin": (ar == 0) & (ac == 0)}
+
+    ctx.prove(name, (KEY0, walls0), ens, req, targets=[MG.RandomGenerator.__call__], merge_over=64,
+              note="generate_maze is a contract boundary: its result is a symbolic maze with >= 2 free cells")
+    # the boundary is called with (width=num_cols, height=num_rows): checked on the abstract value of the real call
+    shp = tuple(jax.eval_shape(lambda k: MG.maze_generation.generate_maze(gen.num_cols, gen.num_rows, k), KEY0).shape)
+    ctx.structural(f"{name}/C10.maze_shape_is_rows_by_cols", shp == (R, C) and tuple(jax.eval_shape(gen, KEY0).walls.shape) == (R, C), "jax.eval_shape",
+                   targets=[MG.RandomGenerator.__call__])
+    _not_constant(ctx, name, gen, lambda s: jnp.concatenate([s.walls.ravel().astype(jnp.int32), jnp.stack([s.agent_position.row, s.agent_position.col])]),
+                  [MG.RandomGenerator.__call__])
+
+
+def run_cleaner_gen(ctx, R, C, A):
+    from jumanji.environments.routing.cleaner import generator as CG
+    from jumanji.environments.routing.cleaner.constants import CLEAN, DIRTY, WALL
+    gen = CG.RandomGenerator(R, C, A)
+    name = f"Cleaner.RandomGenerator[{R}x{C}a{A}]"
+    maze0 = jnp.zeros((R, C), jnp.int8)
+
+    def req(key, maze):
+        return {"generate_maze.values_are_EMPTY_or_WALL": (maze == 0) | (maze == 1)}
+
+    def ens(key, maze):
+        with K.with_attr(CG.maze_generation, "generate_maze", lambda w, h, k: maze):
+            s = gen(key)
+        rows, cols = jnp.arange(R)[:, None], jnp.arange(C)[None, :]
+        origin = (rows == 0) & (cols == 0)
+        want = jnp.where(origin, CLEAN, jnp.where(maze == 1, WALL, DIRTY))
+        return {"C10.origin_cell_free_and_clean": s.grid[0, 0] == CLEAN,
+                "C10.all_agents_start_at_the_origin": s.agents_locations == 0,
+                "C10.grid_is_the_maze_walls_else_dirty": s.grid == want,
+                "C10.step_count_zero": s.step_count == 0,
+                "canary.grid_has_no_wall": jnp.all(s.grid != WALL)}
+
+    ctx.prove(name, (KEY0, maze0), ens, req, targets=[CG.RandomGenerator.__call__, CG.RandomGenerator._adapt_values], merge_over=64,
+              note="generate_maze is a contract boundary: its result is a symbolic maze")
+    ctx.structural(f"{name}/C10.grid_shape_is_rows_by_cols", tuple(jax.eval_shape(gen, KEY0).grid.shape) == (R, C), "jax.eval_shape", targets=[CG.RandomGenerator.__call__])
+    _not_constant(ctx, name, gen, lambda s: s.grid, [CG.RandomGenerator.__call__])
+
+
+# ======================================================================================================================
+# 3. maze_utils: function-level contracts (all values) + connectivity as a bounded stand-in
+# ======================================================================================================================
+def run_stack(ctx, N, Fe):
+    from jumanji.environments.commons.maze_utils import stack as ST
+    name = f"maze_utils.stack[max{N},feat{Fe}]"
+    data0 = jnp.zeros((N, Fe), jnp.int32)
+    el0 = jnp.zeros((Fe,), jnp.int32)
+    rows = jnp.arange(N)[:, None]
+
+    def ens_push(data, idx, el):
+        s = ST.Stack(data, idx)
+        s2 = ST.stack_push(s, el)
+        s3, top = ST.stack_pop(s2)
+        below = rows < idx
+        return {"C10.push_increments_size": s2.insertion_index == idx + 1,
+                "C10.push_writes_the_element_on_top": s2.data[jnp.clip(idx, 0, N - 1)] == el,
+                "C10.push_leaves_other_rows_untouched": (rows == idx) | (s2.data == data),
+                "C10.pop_after_push_returns_the_element": top == el,
+                "C10.pop_after_push_restores_the_size": s3.insertion_index == idx,
+                "C10.pop_after_push_restores_the_live_rows": ~below | (s3.data == data),
+                "C10.pushed_stack_is_not_empty": ~ST.empty_stack(s2),
+                "canary.push_leaves_data_unchanged": jnp.all(s2.data == data)}
+
+    ctx.prove(name + ".push", (data0, jnp.int32(0), el0), ens_push, lambda d, i, e: {"room_left": (i >= 0) & (i < N)},
+              targets=[ST.stack_push, ST.stack_pop, ST.empty_stack], use_stubs=False, merge_over=16)
+
+    def ens_pop(data, idx):
+        s2, top = ST.stack_pop(ST.Stack(data, idx))
+        s3 = ST.stack_push(s2, top)
+        return {"C10.pop_returns_the_top_row": top == data[jnp.clip(idx - 1, 0, N - 1)],
+                "C10.pop_decrements_size": s2.insertion_index == idx - 1,
+                "C10.pop_leaves_data_untouched": s2.data == data,
+                "C10.push_after_pop_restores_the_stack": (s3.data == data) & (s3.insertion_index == idx),
+                "C10.empty_iff_size_zero": ST.empty_stack(s2) == (idx == 1),
+                "canary.pop_returns_row_zero": jnp.all(top == data[0])}
+
+    ctx.prove(name + ".pop", (data0, jnp.int32(1)), ens_pop, lambda d, i: {"not_empty": (i >= 1) & (i <= N)},
+              targets=[ST.stack_pop, ST.stack_push, ST.empty_stack], use_stubs=False, merge_over=16)
+    s0 = ST.create_stack(N, Fe)
+    ok = bool(ST.empty_stack(s0)) and tuple(s0.data.shape) == (N, Fe) and int(s0.insertion_index) == 0 and jnp.issubdtype(s0.data.dtype, jnp.integer)
+    ctx.structural(f"{name}.create/C10.created_stack_is_empty_with_the_requested_capacity", ok, "native evaluation (constant)", targets=[ST.create_stack])
+
+
+def run_random_parity(ctx):
+    from jumanji.environments.commons.maze_utils import maze_generation as MZ
+    name = "maze_utils.maze_generation"
+
+    def ens_even(key, m):
+        r = MZ.random_even(key, m)
+        return {"C10.random_even_in_range": (r >= 0) & (r < m), "C10.random_even_is_even": r % 2 == 0, "canary.random_even_is_zero": r == 0}
+
+    ctx.prove(name + ".random_even", (KEY0, jnp.int32(3)), ens_even, lambda k, m: {"max_val_positive": (m >= 1) & (m <= 1 << 20)}, targets=[MZ.random_even])
+
+    def ens_odd(key, m):
+        r = MZ.random_odd(key, m)
+        return {"C10.random_odd_in_range": (r >= 1) & (r < m), "C10.random_odd_is_odd": r % 2 == 1, "canary.random_odd_is_one": r == 1}
+
+    ctx.prove(name + ".random_odd", (KEY0, jnp.int32(3)), ens_odd, lambda k, m: {"max_val_at_least_two": (m >= 2) & (m <= 1 << 20)}, targets=[MZ.random_odd])
+
+
+def run_split(ctx, R, C):
+    """split_horizontally / split_vertically on a symbolic maze, stack and chamber: the wall is on an odd line strictly inside the chamber, spans it,
+    has exactly one passage at an even offset, nothing else is written, and the pushed sub-chambers are the two sides of the wall."""
+    from jumanji.environments.commons.maze_utils import maze_generation as MZ
+    from jumanji.environments.commons.maze_utils.stack import Stack
+    N = R * C
+    maze0, data0, ch0 = jnp.zeros((R, C), jnp.int8), jnp.zeros((N, 4), jnp.int32), jnp.array([0, 0, C, R], jnp.int32)
+    rows, cols = jnp.arange(R)[:, None], jnp.arange(C)[None, :]
+    srow = jnp.arange(N)[:, None]
+
+    def req(key, maze, data, idx, ch):
+        x, y, w, h = ch[0], ch[1], ch[2], ch[3]
+        return {"maze_values": (maze == 0) | (maze == 1), "chamber_inside_maze": (x >= 0) & (y >= 0) & (x + w <= C) & (y + h <= R),
+                "chamber_splittable": (w >= 2) & (h >= 2), "chamber_origin_even": (x % 2 == 0) & (y % 2 == 0),
+                "stack_has_room_for_two": (idx >= 0) & (idx <= N - 2)}
+
+    def make(horizontal):
+        fn = MZ.split_horizontally if horizontal else MZ.split_vertically
+
+        def ens(key, maze, data, idx, ch):
+            x, y, w, h = ch[0], ch[1], ch[2], ch[3]
+            out = fn(MZ.MazeGenerationState(maze, Stack(data, idx), key), ch)
+            m2, d2, i2 = out.maze, out.chambers.data, out.chambers.insertion_index
+            inside = (cols >= x) & (cols < x + w) & (rows >= y) & (rows < y + h)
+            ok = jnp.asarray(False)
+            # existential over the wall line (odd) and the passage position (even): finite disjunction over the grid
+            for wl in range(1, (C if horizontal else R), 2):
+                for ps in range(0, (R if horizontal else C), 2):
+                    if horizontal:   # vertical wall in column wl, passage in row ps
+                        d, rest = wl - x, w - (wl - x) - 1
+                        valid = (wl > x) & (wl < x + w) & (ps >= y) & (ps < y + h)
+                        on_wall = inside & (cols == wl)
+                        passage = on_wall & (rows == ps)
+                        first, second = jnp.stack([x, y, d, h]), jnp.stack([wl + 1, y, rest, h])
+                    else:            # horizontal wall in row wl, passage in column ps
+                        d, rest = wl - y, h - (wl - y) - 1
+                        valid = (wl > y) & (wl < y + h) & (ps >= x) & (ps < x + w)
+                        on_wall = inside & (rows == wl)
+                        passage = on_wall & (cols == ps)
+                        first, second = jnp.stack([x, y, w, d]), jnp.stack([x, wl + 1, w, rest])
+                    want = jnp.where(passage, 0, jnp.where(on_wall, 1, maze))
+                    p1, p2 = d > 1, rest > 1
+                    n_push = p1.astype(jnp.int32) + p2.astype(jnp.int32)
+                    live = srow < idx
+                    st_ok = (i2 == idx + n_push) & jnp.all(~live | (d2 == data)) \
+                        & (~p1 | jnp.all(d2[jnp.clip(idx, 0, N - 1)] == first)) \
+                        & (~p2 | jnp.all(d2[jnp.clip(idx + p1.astype(jnp.int32), 0, N - 1)] == second))
+                    ok = ok | (valid & jnp.all(m2 == want) & st_ok)
+            return {"C10.one_spanning_wall_on_an_odd_line_one_passage_at_an_even_offset_frame_and_subchambers_partition": ok,
+                    "C10.cells_outside_the_chamber_untouched": inside | (m2 == maze),
+                    "canary.maze_unchanged": jnp.all(m2 == maze)}
+        return fn, ens
+
+    for horizontal in (True, False):
+        fn, ens = make(horizontal)
+        ctx.prove(f"maze_utils.{fn.__name__}[{R}x{C}]", (KEY0, maze0, data0, jnp.int32(1), ch0), ens, req,
+                  targets=[fn, MZ.draw_vertical_wall if horizontal else MZ.draw_horizontal_wall, MZ.create_chamber, MZ.random_odd, MZ.random_even],
+                  while_bound=max(R, C) + 1, merge_over=8)
+
+
+def _flood(free, r0, c0):
+    """cells reachable from (r0, c0) through free cells (4-neighbourhood); numpy bool array"""
+    R, C = free.shape
+    seen = np.zeros_like(free, bool)
+    if not free[r0, c0]:
+        return seen
+    seen[r0, c0] = True
+    todo = [(r0, c0)]
+    while todo:
+        r, c = todo.pop()
+        for dr, dc in ((1, 0), (-1, 0), (0, 1), (0, -1)):
+            a, b = r + dr, c + dc
+            if 0 <= a < R and 0 <= b < C and free[a, b] and not seen[a, b]:
+                seen[a, b] = True
+                todo.append((a, b))
+    return seen
+
+
+def run_maze_connectivity(ctx, sizes, nkeys):
+    from jumanji.environments.routing.maze.generator import RandomGenerator as MGen
+    from jumanji.environments.routing.cleaner.generator import RandomGenerator as CGen
+    from jumanji.environments.routing.cleaner.constants import WALL
+    from jumanji.environments.commons.maze_utils import maze_generation as MZ
+    keys = jax.vmap(jax.random.PRNGKey)(jnp.arange(nkeys))
+    for (R, C) in sizes:
+        ev, bad = 0, []
+        st = jax.jit(jax.vmap(MGen(R, C)))(keys)
+        walls, ar, ac, tr, tc = (np.asarray(x) for x in (st.walls, st.agent_position.row, st.agent_position.col, st.target_position.row, st.target_position.col))
+        for k in range(nkeys):
+            free = ~walls[k]
+            reach = _flood(free, 0, 0)
+            ok = free[0, 0] and np.array_equal(reach, free) and free[ar[k], ac[k]] and free[tr[k], tc[k]] and (ar[k], ac[k]) != (tr[k], tc[k]) \
+                and 0 <= ar[k] < R and 0 <= tr[k] < R and 0 <= ac[k] < C and 0 <= tc[k] < C
+            ev += 1
+            if not ok and len(bad) < 3:
+                bad.append({"key": f"PRNGKey({k})", "walls": walls[k].astype(int).tolist(), "agent": [int(ar[k]), int(ac[k])], "target": [int(tr[k]), int(tc[k])]})
+        ctx.bounded_check(f"Maze.RandomGenerator[{R}x{C}]/C10.maze_fully_connected_start_and_target_free_and_mutually_reachable", ev, len(bad),
+                          f"flood fill on PRNGKey(0..{nkeys - 1}) at {R}x{C}", bad[0] if bad else None)
+        ev, bad = 0, []
+        grid = np.asarray(jax.jit(jax.vmap(CGen(R, C, 2)))(keys).grid)
+        for k in range(nkeys):
+            free = grid[k] != WALL
+            ok = free[0, 0] and np.array_equal(_flood(free, 0, 0), free)
+            ev += 1
+            if not ok and len(bad) < 3:
+                bad.append({"key": f"PRNGKey({k})", "grid": grid[k].tolist()})
+        ctx.bounded_check(f"Cleaner.RandomGenerator[{R}x{C}a2]/C10.every_dirty_tile_reachable_from_the_origin", ev, len(bad),
+                          f"flood fill on PRNGKey(0..{nkeys - 1}) at {R}x{C}", bad[0] if bad else None)
+
+
+# ======================================================================================================================
+# 4. FlatPack random generator: the blocks exactly tile the grid; finite generators (databases, toy, dummy): native exhaustive checks
+# ======================================================================================================================
+def _flatpack_tiling_clauses(blocks, solved, N, R, C):
+    """blocks: (N,3,3) as returned by the generator (shuffled, rotated); solved: (R,C) the generator's own solved grid, used as the WITNESS of the
+    existential 'there is a placement of every block (rotation, top-left offset inside the action space) such that every cell is covered exactly once'.
+    Sound for any witness: if every cell of `solved` carries one block number in 1..N, every number is carried by exactly one returned block, and each
+    returned block, suitably rotated and placed, covers exactly the cells of `solved` carrying its number, then the blocks tile the grid."""
+    rows, cols = jnp.arange(R)[:, None], jnp.arange(C)[None, :]
+    ident = jnp.stack([jnp.max(blocks[i]) for i in range(N)])          # the number carried by block slot i
+    uniform = jnp.stack([jnp.all((blocks[i] == 0) | (blocks[i] == ident[i])) for i in range(N)])
+    each_once = jnp.stack([jnp.sum(ident == n) == 1 for n in range(1, N + 1)])
+    placed = []
+    for i in range(N):
+        region = solved == ident[i]
+        ok = jnp.asarray(False)
+        for r in range(4):
+            b = jnp.rot90(blocks[i], r) != 0
+            for oy in range(R - 2):
+                for ox in range(C - 2):
+                    canvas = jnp.zeros((R, C), bool).at[oy:oy + 3, ox:ox + 3].set(b)
+                    ok = ok | jnp.all(canvas == region)
+        placed.append(ok)
+    return {"C10.solved_grid_cells_carry_one_block_number_each": (solved >= 1) & (solved <= N),
+            "C10.each_block_is_one_piece_number": uniform & (ident >= 1) & (ident <= N),
+            "C10.each_block_number_returned_exactly_once": each_once,
+            "C10.each_block_rotated_and_placed_covers_exactly_its_region": jnp.stack(placed)}
+
+
+def _capture_solved_grid(gen, key):
+    """runs the REAL generator; the `init` of its block-extraction scan (the solved grid) is recorded on the way (nothing is replaced)"""
+    real_scan = jax.lax.scan
+    seen = {}
+
+    def scan(f, init, xs=None, *a, **kw):
+        if getattr(f, "__name__", "") == "_extract_block":
+            seen["solved"] = init[0]
+        return real_scan(f, init, xs, *a, **kw)
+
+    with K.with_attr(jax.lax, "scan", scan):
+        st = gen(key)
+    return st, seen["solved"]
+
+
+def run_flatpack(ctx, nr, nc):
+    from jumanji.environments.packing.flat_pack.generator import RandomFlatPackGenerator as G
+    gen = G(nr, nc)
+    N, R, C = nr * nc, 2 * nr + 1, 2 * nc + 1
+    name = f"FlatPack.RandomFlatPackGenerator[{nr}x{nc}]"
+
+    def ens(key):
+        st, solved = _capture_solved_grid(gen, key)
+        out = _flatpack_tiling_clauses(st.blocks, solved, N, R, C)
+        out["C10.grid_empty_nothing_placed"] = jnp.all(st.grid == 0) & jnp.all(~st.placed_blocks) & (tuple(st.grid.shape) == (R, C))
+        out["canary.first_block_is_piece_one"] = jnp.max(st.blocks[0]) == 1
+        return out
+
+    ctx.prove(name, (KEY0,), ens, targets=[G.__call__, G._extract_block, G._crop_nonzero, G._select_col_interlocks, G._select_row_interlocks, G._select_sides,
+                                           G._fill_grid_columns, G._fill_grid_rows], merge_over=64)
+    _not_constant(ctx, name, gen, lambda s: s.blocks, [G.__call__], keys=8)
+
+
+# ======================================================================================================================
 def tasks(tier):
     q = tier == "quick"
     out = {}
@@ -252,7 +647,7 @@ def tasks(tier):
         out[f"Knapsack.RandomGenerator[{n}]"] = (run_knapsack, {"n": n})
     for n in ((3, 4) if q else (3, 4, 5, 7)):
         out[f"GraphColoring.RandomGenerator[{n}]"] = (run_graph_coloring, {"n": n})
-    for (R, C, M) in (((2, 2, 1), (3, 4, 3), (4, 3, 11)) if q else ((2, 2, 1), (3, 4, 3), (4, 3, 11), (5, 5, 6), (2, 3, 0))):
+    for (R, C, M) in (((2, 2, 1), (2, 2, 3), (3, 4, 3), (4, 3, 2)) if q else ((2, 2, 1), (2, 2, 3), (3, 4, 3), (4, 3, 2), (3, 3, 8), (5, 5, 6))):
         out[f"Minesweeper.UniformSamplingGenerator[{R}x{C}m{M}]"] = (run_minesweeper, {"R": R, "C": C, "M": M})
     for cfg in (((2, 2, 2, 2), (3, 2, 3, 3)) if q else ((2, 2, 2, 2), (3, 2, 3, 3), (4, 3, 4, 5), (2, 2, 1, 1))):
         out["JobShop.RandomGenerator[%dx%dx%dx%d]" % cfg] = (run_jobshop, dict(zip(("J", "Mc", "O", "D"), cfg)))
@@ -262,6 +657,29 @@ def tasks(tier):
         out[f"Game2048.reset[{n}]"] = (run_2048, {"n": n})
     for (R, C) in (((4, 4), (5, 4)) if q else ((4, 4), (5, 4), (4, 6), (10, 10))):
         out[f"Tetris.reset[{R}x{C}]"] = (run_tetris, {"R": R, "C": C})
+    # ---- 2. entities on distinct free cells
+    for (G, A) in (((3, 2), (4, 3), (2, 2)) if q else ((3, 2), (4, 3), (2, 2), (5, 4), (6, 6))):
+        out[f"Connector.UniformRandomGenerator[{G}x{G}a{A}]"] = (run_connector_uniform, {"G": G, "A": A})
+    for kw in (({"G": 6, "A": 2, "F": 2}, {"G": 5, "A": 3, "F": 1, "L": 3}) if q else
+               ({"G": 6, "A": 2, "F": 2}, {"G": 5, "A": 3, "F": 1, "L": 3}, {"G": 6, "A": 2, "F": 2, "coop": True}, {"G": 7, "A": 4, "F": 3})):
+        out["LBF.RandomGenerator[g%da%df%dl%d%s]" % (kw["G"], kw["A"], kw["F"], kw.get("L", 2), "coop" if kw.get("coop") else "")] = (run_lbf, kw)
+    for cfg in (((1, 3, 1, 1, 1, 2), (1, 3, 1, 2, 1, 2), (2, 1, 2, 3, 1, 1)) if q else ((1, 3, 1, 1, 1, 2), (1, 3, 1, 2, 1, 2), (2, 1, 2, 3, 1, 1), (2, 3, 1, 4, 1, 4))):
+        out["RobotWarehouse.RandomGenerator[%d,%d,%d,a%d,s%d,q%d]" % cfg] = (run_rware, {"cfg": cfg})
+    for (R, C) in (((5, 7), (7, 5), (3, 3), (4, 6)) if q else ((5, 7), (7, 5), (3, 3), (4, 6), (10, 10), (2, 2))):
+        out[f"Maze.RandomGenerator[{R}x{C}]"] = (run_maze_gen, {"R": R, "C": C})
+    for (R, C, A) in (((3, 5, 2), (5, 3, 2), (4, 4, 1)) if q else ((3, 5, 2), (5, 3, 2), (4, 4, 1), (10, 10, 3))):
+        out[f"Cleaner.RandomGenerator[{R}x{C}a{A}]"] = (run_cleaner_gen, {"R": R, "C": C, "A": A})
+    # ---- 3. maze_utils
+    for (N, Fe) in (((4, 2), (6, 4)) if q else ((4, 2), (6, 4), (12, 4))):
+        out[f"maze_utils.stack[max{N},feat{Fe}]"] = (run_stack, {"N": N, "Fe": Fe})
+    for (R, C) in (((3, 3), (4, 5)) if q else ((3, 3), (4, 5), (5, 4), (5, 7))):
+        out[f"maze_utils.split[{R}x{C}]"] = (run_split, {"R": R, "C": C})
+    out["maze_utils.random_even_odd"] = (run_random_parity, {})
+    sizes = ((3, 3), (5, 7), (7, 5), (4, 6), (6, 4), (2, 2), (2, 5), (10, 10)) if q else ((3, 3), (5, 7), (7, 5), (4, 6), (6, 4), (2, 2), (2, 5), (5, 2), (10, 10), (9, 12), (15, 15), (16, 11))
+    out["maze_utils.connectivity[bounded]"] = (run_maze_connectivity, {"sizes": sizes, "nkeys": 200 if q else 1000})
+    # ---- 4. FlatPack tiling; finite generators
+    for (nr, nc) in (((1, 2), (2, 2)) if q else ((1, 1), (1, 2), (2, 1), (2, 2), (2, 3))):
+        out[f"FlatPack.RandomFlatPackGenerator[{nr}x{nc}]"] = (run_flatpack, {"nr": nr, "nc": nc})
     return out
 
 
